@@ -30,7 +30,12 @@ for pid in ids:
     nalist.append({"property_id": pid, "reason": na[pid]})
 try:
     hook_commits = subprocess.check_output(["git", "-C", "/repo", "log", "--format=%H %s"], text=True).splitlines()
-    hook_commits = [l.split()[0] for l in hook_commits if " verif hooks" in l]
+    # a hook commit: message says so, or (driver snapshot commits) it touches nothing but guarded hook files
+    def only_hook_files(h):
+        fs = subprocess.check_output(["git", "-C", "/repo", "show", "--name-only", "--format=", h], text=True).split()
+        return bool(fs) and all(f.endswith("zz_verif_contracts.go") or f.startswith("common/verifhook/") for f in fs)
+    hook_commits = [l.split()[0] for l in hook_commits
+                    if " verif hooks" in l or (" fix:" not in l and "snapshot" not in l and only_hook_files(l.split()[0]))]
 except Exception:
     hook_commits = []
 m = {
